@@ -34,11 +34,11 @@ PRIORITY = [
 
 def run(index, rep):
     fn = index.func(PARAMS, "Parameters.calculate_human_consumption_for_min_needs")
-    cap(index, rep, fn)
-    greedy(index, rep, fn)
-    order(index, rep, fn)
-    retime(index, rep)
-    bump(index, rep)
+    rep.guard(cap, index, rep, fn)
+    rep.guard(greedy, index, rep, fn)
+    rep.guard(order, index, rep, fn)
+    rep.guard(retime, index, rep)
+    rep.guard(bump, index, rep)
 
 
 def cap(index, rep, fn):
